@@ -324,8 +324,9 @@ func checkString(qf qframe.QFrame, tab hx.Table) string {
 			}
 		}
 	}
+	// the footer is not part of "the rows printed"; when there is one it must not contradict Len()
 	last := lines[len(lines)-1]
-	if want := fmt.Sprintf("Dims = %d x %d", len(tab.Cols), qf.Len()); last != want {
+	if want := fmt.Sprintf("Dims = %d x %d", len(tab.Cols), qf.Len()); strings.HasPrefix(last, "Dims = ") && last != want {
 		return fmt.Sprintf("String() last line %q, want %q", last, want)
 	}
 	return ""
